@@ -274,6 +274,76 @@ fn check_pair(def: &DefSpec, run: &mut Run) -> Result<(), String> {
     Ok(())
 }
 
+/// Explicit priorities, from 0 to usize::MAX with the powers of two in between.
+const EXPLICIT_POOL: &[usize] = &[
+    0, 1, 2, 3, 4, 5, 7, 8, 9, 255, 256, 65535, 65536, 1 << 31, (1 << 32) - 1, 1 << 32, (1 << 32) + 1, (1 << 32) + 4, (1 << 32) + 8, (1 << 33) + 9, (1 << 32) + 20, 1 << 48,
+    1 << 63, usize::MAX - 1, usize::MAX,
+];
+
+/// Explicit overrides: a literal token and a regex that matches the literal, one or both with an explicit priority. The
+/// numerically higher priority (explicit, or the rule's default) wins on the literal's text; equal priorities are an
+/// ambiguity the derive reports.
+fn check_explicit(case: &(DefSpec, u8, Option<u8>), run: &mut Run) -> Result<(), String> {
+    let (def0, ri, ti) = case;
+    let mut def = def0.clone();
+    // pair_defs: variants hold the token, the regex (default priority) and possibly a bystander (priority 1), one each
+    def.variants.retain(|v| !(v[0].kind == PatKind::Regex && v[0].priority.is_some()));
+    let tok_variant = def.variants.iter().position(|v| v[0].kind == PatKind::Token).unwrap();
+    let rx = 1 - tok_variant;
+    let w = def.variants[tok_variant][0].lit.value();
+    let p_rx = EXPLICIT_POOL[(*ri as usize * EXPLICIT_POOL.len()) >> 8];
+    def.variants[rx][0].priority = Some(p_rx);
+    let p_tok = match ti {
+        Some(t) => {
+            let p = EXPLICIT_POOL[(*t as usize * EXPLICIT_POOL.len()) >> 8];
+            def.variants[tok_variant][0].priority = Some(p);
+            p
+        }
+        None => 2 * w.len(),
+    };
+    let Ok(r) = RefLexer::build(&def) else { return Ok(()) };
+    let Matcher::Dfa(_) = &r.pats[rx].matcher else { return Ok(()) };
+    if !r.pats[rx].matcher.run(&w, 0).ends.contains(&w.len()) {
+        return Ok(());
+    }
+    run.eval(1);
+    let d = derive_def(&def);
+    if d.panic.is_some() {
+        run.count("derive_panicked(C19 business)", 1);
+        return Ok(());
+    }
+    let Some(g) = d.graph else { return Ok(()) };
+    if g.leaves.len() != 2 {
+        return Ok(());
+    }
+    run.count("explicit_priority_pairs", 1);
+    if p_rx >= 1 << 32 || p_tok >= 1 << 32 {
+        run.count("explicit_priority_pairs_beyond_32_bits", 1);
+        run.nontrivial(fnv(d.rust.as_bytes()));
+    }
+    if g.leaves[rx].priority != p_rx || g.leaves[tok_variant].priority != p_tok {
+        return Err(format!("explicit priorities {p_tok} (token) / {p_rx} (regex) arrive as {} / {}", g.leaves[tok_variant].priority, g.leaves[rx].priority));
+    }
+    let ambiguous = d.errors.iter().any(|m| m.contains("can match simultaneously"));
+    if !d.errors.is_empty() && !ambiguous {
+        run.count("pairs_rejected_for_other_reasons", 1);
+        return Ok(());
+    }
+    if (p_rx == p_tok) != ambiguous {
+        return Err(format!("token priority {p_tok}, regex priority {p_rx}, both match {}: {}", show(&w), if ambiguous { "reported as ambiguous although the priorities differ" } else { "accepted although the priorities are equal" }));
+    }
+    if ambiguous {
+        return Ok(());
+    }
+    let mut gl = GraphLexer::new(&g, &w, true, false);
+    let first = gl.next();
+    let expect = if p_tok > p_rx { tok_variant } else { rx };
+    if first != Some(Ok(expect)) || gl.token_start != 0 || gl.token_end != w.len() {
+        return Err(format!("token priority {p_tok}, regex priority {p_rx}: lexing {} yields {:?} {}..{}, the higher priority is leaf {expect}", show(&w), first, gl.token_start, gl.token_end));
+    }
+    Ok(())
+}
+
 pub fn main(args: &Args) -> i32 {
     let mut run = Run::new(
         "C09",
@@ -285,7 +355,12 @@ pub fn main(args: &Args) -> i32 {
     if let Some(path) = &args.replay {
         let v: serde_json::Value = serde_json::from_str(&std::fs::read_to_string(path).unwrap()).unwrap();
         let mut scratch = Run::new("C09", "quick", 0, "");
-        let res = if v.get("whole_def").is_some() {
+        let res = if v.get("explicit").and_then(|e| e.get("regex_index")).is_some() {
+            let def: DefSpec = serde_json::from_value(v["def"].clone()).unwrap();
+            let ri = v["explicit"]["regex_index"].as_u64().unwrap() as u8;
+            let ti = v["explicit"]["token_index"].as_u64().map(|x| x as u8);
+            check_explicit(&(def, ri, ti), &mut scratch)
+        } else if v.get("whole_def").is_some() {
             let def: DefSpec = serde_json::from_value(v["def"].clone()).unwrap();
             check_def(&def, &mut scratch)
         } else if v.get("pair").is_some() {
@@ -364,6 +439,25 @@ pub fn main(args: &Args) -> i32 {
                 let msg = check_pair(&def, &mut scratch).err().unwrap_or_default();
                 run.violations = 1;
                 report_violation("C09", &args.replay_dir, &json!({"property": "C09", "tier": "G", "pair": true, "def": def, "rendered_rust": model::prep::render(&def), "findings": [{"property": "C09", "what": msg}]}));
+                code = 1;
+            }
+            DriveResult::Abort(m) => {
+                eprintln!("aborted: {m}");
+                code = 2;
+            }
+        }
+    }
+    if code == 0 {
+        run.frozen = false;
+        use proptest::prelude::*;
+        let strat = (pair_defs(), any::<u8>(), prop::option::weighted(0.5, any::<u8>()));
+        match drive(&strat, cases / 2, args.seed ^ 0xC09C, 600, &mut run, |c, run| check_explicit(c, run)) {
+            DriveResult::Pass => {}
+            DriveResult::Fail(c) => {
+                let mut scratch = Run::new("C09", "quick", 0, "");
+                let msg = check_explicit(&c, &mut scratch).err().unwrap_or_default();
+                run.violations = 1;
+                report_violation("C09", &args.replay_dir, &json!({"property": "C09", "tier": "G", "def": c.0, "explicit": {"regex_index": c.1, "token_index": c.2}, "findings": [{"property": "C09", "what": msg}]}));
                 code = 1;
             }
             DriveResult::Abort(m) => {
